@@ -11,6 +11,14 @@ import numpy as np
 from harness import gen, trees, pipeline, mapcheck
 
 
+# The reference cells are float32 and the stored centroid (sum / n) carries single-precision rounding: it equals the
+# true mean profile only to ~ 2^-24 relative (measured ~1e-6 absolute, see the 1e-4 test below).  On a drawn subset
+# whose centroid values all lie within 1e5 * 2^-24 (relative) of each other, that noise moves the correlation of the
+# query with its OWN stored centroid away from 1 by more than the 1e-9 tested here ((noise/spread)^2): such a subset
+# is a near-tie in the sense of DESIGN section 3 - counted and skipped, like the exactly flat one (F6).
+NEAR_FLAT = 1.0e5 * 2.0 ** -24
+
+
 def build_reference(ctx, rng, d):
     """Generated separable reference -> statistics -> reference markers -> query markers,
     all through the pipeline's own stage functions."""
@@ -80,7 +88,13 @@ def run(ctx):
                 'the proviso of the property is evaluated from the recorded subsets; non-trivial = a centroid cell at a node '
                 'with >= 2 children')
     ctx.assumptions += ['the reference-marker file gets the metadata dataset {precomputed_path} that cli/reference_markers.py '
-                        'writes (the argschema CLI itself cannot be constructed in this environment)']
+                        'writes (the argschema CLI itself cannot be constructed in this environment)',
+                        'separable clusters: a generated reference for which the marker stages find no gene at all for a node '
+                        'with >= 2 children is outside the quantifier; mapping must then refuse the lookup with "has no valid '
+                        'markers" (validate_marker_lookup) - counted in the distribution, not compared',
+                        'a drawn subset on which the centroid values lie within 1e5 * 2^-24 (relative) of each other is a '
+                        'near-tie: the single-precision rounding of the stored centroid then moves the correlation with the '
+                        'own centroid by more than the 1e-9 tested; counted and skipped (the exactly flat subset is finding F6)']
     n = ctx.n(8, 120)
     for k in range(n):
         d = ctx.scratch / f's{k}'
@@ -94,7 +108,10 @@ def run(ctx):
             cls = 'c18-stage-chain'
             if isinstance(e, UnboundLocalError) and 'this_cluster_stats' in str(e):
                 cls = 'F12-no-leaf-pair-reference-markers'
-            elif isinstance(e, ValueError) and 'chunk dimensions must be positive' in str(e) and '_merge_sparse_by_pair_files' in tb:
+            elif isinstance(e, ValueError) and 'chunk dimensions must be positive' in str(e) and \
+                    ('_merge_sparse_by_pair_files' in tb or 'add_sparse_by_gene_markers_to_file' in tb):
+                # regression of the REPAIRED finding F17 (kind "fixed": suppresses nothing): a reference without any
+                # up- (or down-) regulated marker must give a marker file with an empty direction
                 cls = 'F17-no-marker-in-one-direction-raises'
             ctx.violation(f'a stage rejected the output of the previous stage: {type(e).__name__}: {e}',
                           {'class': cls, 'error': f'{type(e).__name__}: {e}', 'traceback': tb[-1500:]})
@@ -126,6 +143,18 @@ def run(ctx):
         res = pipeline.run_mapping(cfg, trace_dir=d / 'trace')
         desc = {'kind': 'centroid-run', 'tree': gt.data, 'lookup': lookup, 'factor': factor,
                 'config': {kk: cfg['type_assignment'][kk] for kk in cfg['type_assignment']}}
+        if not res['ok'] and 'has no valid markers' in str(res['error']):
+            # not separable: the marker stages found NO gene for a node that has a choice (e.g. two clusters whose
+            # differing genes all fail the criteria), and mapping refuses such a lookup by design
+            # (validate_marker_lookup).  Outside the quantifier ("separable clusters"); counted, not compared.
+            choice = ['None' if len(gt.model[0]) >= 2 else None]
+            for li in range(len(gt.levels) - 1):
+                choice += [f'{gt.levels[li]}/{gt.name(n)}' for n, ch in gt.model[li] if len(ch) >= 2]
+            if any(c is not None and not lookup.get(c) for c in choice):
+                ctx.count(('c18', k, 'not-separable'), nontrivial=False)
+                ctx.dist('reference', 'not-separable (no marker at a node with a choice): mapping refuses, skipped')
+                shutil.rmtree(d, ignore_errors=True)
+                continue
         if not res['ok']:
             ctx.count(('c18', k, 'run-failure'), nontrivial=False)
             desc['class'] = 'c18-stage-chain'
@@ -163,12 +192,14 @@ def run(ctx):
                     refv = np.array([means[rowof[x]][[cols.index(g) for g in nev['genes']]] for x in nev['leaves']])
                     me = nev['leaves'].index(lf)
                     # proviso: on every drawn subset the centroid is not flat and no other leaf correlates perfectly
-                    proviso, flat = True, False
+                    proviso, flat, near_flat = True, False, False
                     for S in sev['subsets']:
                         qs = qv[S]
                         if np.ptp(qs) == 0:
                             flat = True
                             continue
+                        if np.ptp(qs) < NEAR_FLAT * max(1.0, float(np.max(np.abs(qs)))):
+                            near_flat = True        # the spread is within the rounding noise of the stored centroid
                         for j in range(len(nev['leaves'])):
                             if j == me:
                                 continue
@@ -180,8 +211,11 @@ def run(ctx):
                                 proviso = False
                     ctx.count(('c18', k, cid, lv), nontrivial=True)
                     ctx.dist('factor', factor)
-                    ctx.dist('proviso', 'holds' if proviso and not flat else ('flat-subset' if flat else 'other-leaf-perfect'))
-                    if proviso:
+                    ctx.dist('proviso', 'near-flat-subset (skipped)' if near_flat and not flat else
+                             ('holds' if proviso and not flat else ('flat-subset' if flat else 'other-leaf-perfect')))
+                    if near_flat and not flat:
+                        pass                    # near-tie: counted in the distribution above, not compared
+                    elif proviso:
                         ok = (trees.GenTree.num(a['assignment']) == path[li] and abs(a['bootstrapping_probability'] - 1) < 1e-12
                               and abs(a['avg_correlation'] - 1) < 1e-9)
                         if not ok:
